@@ -45,7 +45,7 @@ theorem runOperation_draws (ao : AliasOracle) (cfg : OpCfg) (s : St) (p : Prog)
       (match (atFinally cfg s p).active with
        | none => s.draws
        | some _ => if drawsUsed (atFinally cfg s p).forced cfg.params = 0 then s.draws else s.draws.tail) ∧
-    (runOperation ao cfg s p).1.enabled = true := by
+    ((atFinally cfg s p).active.isSome = true → (runOperation ao cfg s p).1.enabled = true) := by
   have hdec := runOperation_decision ao cfg s p hidle hen hsk
   obtain ⟨ha, hf, hc, hp, hpo, hi⟩ := hidle
   rw [runOperation_recording ao cfg s p hp hen hsk ha]
@@ -53,8 +53,16 @@ theorem runOperation_draws (ao : AliasOracle) (cfg : OpCfg) (s : St) (p : Prog)
   have horng := opened_rng cfg s
   have hfd := finishRecording_draws ao cfg (execOperationFunc (opened cfg s) p).1
     (excFlagOf (execOperationFunc (opened cfg s) p).2) (tick (startRec cfg s)).2
-  have henF : (execOperationFunc (opened cfg s) p).1.enabled = true := by
-    rw [(execOperationFunc_fields (opened cfg s) p).2.2.2.2.2.2.1, (exec_frame p (opened cfg s)).1, (opened_fields cfg s).2.2.1]; exact hen
+  -- the recording is still in flight at the `finally`: whatever the operation did with the switch, it is on (F15)
+  have henF : (execOperationFunc (opened cfg s) p).1.active.isSome = true →
+      (execOperationFunc (opened cfg s) p).1.enabled = true := by
+    intro hsome
+    rw [(execOperationFunc_fields (opened cfg s) p).2.2.2.2.2.2.1]
+    cases hex : (exec (opened cfg s) p).1.active with
+    | none =>
+      rw [(execOperationFunc_fields (opened cfg s) p).2.2.2.2.2.2.2 hex] at hsome
+      cases hsome
+    | some a1 => exact exec_enabled_of_active p _ (by rw [(opened_fields cfg s).2.2.1]; exact hen) hex
   unfold atFinally at hdec ⊢
   simp only
   rw [hfd.1, hfd.2, hrng.1, horng.1]
